@@ -221,7 +221,7 @@ def gen(streams, tier, i):
                           "components", "linear_paths", "multiply",
                           "seg_component", "cut", "to_obj", "l.to_other", "l.diff", "l.refs", "each.to_other",
                           "l.edit_rm", "l.edit_rm", "select_rt", "l.retype", "l.retype", "l.edge_setter",
-                          "grp.edit", "grp.edit"])
+                          "grp.edit", "grp.edit", "queries", "queries"])
         # graph rewrites on arbitrary (possibly corrupted) graphs -- merge_linear_paths, remove_dead_ends,
         # remove_small_components, group resolution -- take no string argument and are outside C07's
         # quantifier (texts and strings passed to the API); C14/C16/C17 cover them on their own domains
@@ -504,6 +504,33 @@ def api(g, cx, op, st):
         cx.call("str(line) after set_datatype", str, l)
         cx.call("line.clone() after set_datatype", l.clone)
         o = cx.call("gfa.validate() after set_datatype", g.validate)
+    elif c == "queries":
+        # the query methods of segments, edges and the Gfa, given names and instances
+        o = None
+        segs = list(g.segments)[:4]
+        for s in segs:
+            for what, fn in (("oriented_relations", lambda: [s.oriented_relations("+", gfapy.OrientedLine(x, "+")) for x in segs]),
+                             ("relations_to", lambda: [s.relations_to(x) for x in segs] + [s.relations_to(a)]),
+                             ("end_relations", lambda: [s.end_relations("L", gfapy.SegmentEnd(x, "R")) for x in segs]),
+                             ("neighbours", lambda: (s.neighbours, s.neighbours_L, s.neighbours_R, s.containers, s.contained)),
+                             ("is_cut_segment", lambda: (g.is_cut_segment(s), g.is_cut_segment(s.name))),
+                             ("segment_connected_component", lambda: g.segment_connected_component(s.name)),
+                             ("coverage", lambda: (s.coverage(), s.try_get_coverage()))):
+                o = cx.call("segment." + what, fn)
+        for e in [x for x in g.lines if x.record_type in ("L", "C", "E")][:4]:
+            for what, fn in (("other(name)", lambda: [e.other(x.name) for x in segs] + [e.other(a)]),
+                             ("other(instance)", lambda: [e.other(x) for x in segs]),
+                             ("is_cut_link", lambda: g.is_cut_link(e)),
+                             ("ends", lambda: (e.from_end, e.to_end, e.is_circular(), e.is_circular_same_end())),
+                             ("other_end", lambda: [e.other_end(gfapy.SegmentEnd(x, "L"), True) for x in segs]),
+                             ("canonical", lambda: (e.is_canonical(), e.canonicize() if e.record_type == "L" else None)
+                              if e.record_type in ("L", "C") else None)):
+                o = cx.call("edge." + what, fn)
+        for what, fn in (("split_connected_components", lambda: [str(x) for x in g.split_connected_components()]),
+                         ("connected_components", g.connected_components), ("linear_paths", g.linear_paths)):
+            o = cx.call("gfa." + what, fn)
+        if o is None:
+            return
     elif c == "grp.edit":
         gs = [x for x in g.lines if x.record_type in ("O", "U")]
         if not gs:
